@@ -6,6 +6,7 @@
    transcription of the dispatch loop of do.go (tie: run-level correspondence). *)
 From Coq Require Import ZArith List String Bool.
 From GV Require Import GoSpec.GoPrim Gen.ValueOps_gen Gen.Tables_gen Model.PeepTypes Model.VM Model.Peephole Gen.Steps_gen Proofs.C02_rules Proofs.Steps_agree.
+From GV Require Proofs.C02_fixpoint.
 Import ListNotations.
 Open Scope Z_scope.
 
@@ -72,3 +73,30 @@ Theorem c02_steps_cover : forall name, In name
   forall i slots ops s, icode i = C name -> step_gen i slots ops s <> None.
 Proof. exact steps_cover. Qed.
 Print Assumptions c02_steps_cover.
+
+(* ---- re-optimising optimised code changes nothing ---------------------------------------------------
+   The compiler optimises inner blocks first, computes jump offsets and function lengths from their
+   OPTIMISED length, and then runs the optimiser again over the enclosing code; this is only sound if the
+   optimiser has reached a fixpoint after its optimize_passes (= 2, regenerated) passes.  General theorem,
+   for ANY rule table: if every rule has a non-empty pattern and side conditions that only read the window
+   (rules_wf), and there is no chain of n+1 rules each feeding the next (the fused opcode of one occurs in
+   the pattern of the next: no_chain n), then n passes reach a fixpoint on EVERY instruction list.
+   chain_free is decidable and is evaluated on the table regenerated from compiler.go on every run: a new
+   rule that feeds an existing one (e.g. PUSH;INCDEC -> PUSH or INCDEC;INCDEC -> INCDEC, which make a third
+   pass change the code: examples b1 and b2 in Proofs/C02_fixpoint.v) breaks c02_reoptimize_stable. *)
+Theorem c02_fixpoint_general : forall n rules, C02_fixpoint.chain_free n rules = true ->
+  forall code, do_optimize rules (iter_opt n rules code) = iter_opt n rules code.
+Proof. exact C02_fixpoint.fixpoint_after_n. Qed.
+Print Assumptions c02_fixpoint_general.
+
+Theorem c02_reoptimize_stable : forall code,
+  do_optimize peephole_rules (iter_opt optimize_passes peephole_rules code) = iter_opt optimize_passes peephole_rules code.
+Proof. exact C02_fixpoint.c02_reoptimize_stable. Qed.
+Print Assumptions c02_reoptimize_stable.
+
+Theorem c02_optimize_idempotent : forall on code, optimize on (optimize on code) = optimize on code.
+Proof. exact C02_fixpoint.c02_optimize_idempotent. Qed.
+Print Assumptions c02_optimize_idempotent.
+
+(* two passes are needed: after one pass the generated table is not yet at a fixpoint *)
+Check C02_fixpoint.one_pass_not_fixpoint.
